@@ -131,10 +131,12 @@ def apalache_inductive(ck, module, what, indinv="IndInv", props=(), timeout=900,
     obligations = obligations or ([("Init", indinv, 0), ("IndInit", indinv, 1)] + [("IndInit", p, 0) for p in props])
     t0 = time.time()
     res = []
+    os.makedirs(out, exist_ok=True)
     try:
         for init, inv, length in obligations:
             p = subprocess.run(["timeout", str(timeout), "apalache-mc", "check", f"--cinit={cinit}", f"--init={init}", f"--inv={inv}", f"--length={length}", f"--out-dir={out}", path],
-                               stdout=subprocess.PIPE, stderr=subprocess.STDOUT, text=True, cwd=os.path.dirname(path))
+                               stdout=subprocess.PIPE, stderr=subprocess.STDOUT, text=True, cwd=os.path.dirname(path),
+                               env=dict(os.environ, JAVA_IO_TMPDIR=out, TMPDIR=out))   # (SANY's temporary copies stay in the run's directory)
             o = p.stdout or ""
             if "The outcome is: NoError" in o and p.returncode == 0:
                 res.append({"init": init, "inv": inv, "length": length, "outcome": "NoError"})
